@@ -5,6 +5,71 @@ ROOT = os.path.dirname(os.path.dirname(os.path.abspath(__file__)))
 
 # id -> (category, technique, text, note, design_ref)
 CHECKS = {
+ "C01": ("model_checking",
+         "exhaustive enumeration of (startup parameters x message in place of the password x validator outcome x continuation history x delivery mode) on a real server, judged by a three-state reference machine plus a differential run without authentication",
+         "27 messages in place of the password (well-formed with accepting / rejecting / failing validator, malformed, every other type byte, truncated, oversized, EOF) x 3 startup parameter sets x all continuations of <=2 (quick) / <=3 (thorough) letters x {pipelined in one segment, after quiescence} run on a fresh real Server; non-accepted => no AuthenticationOk, no ParameterStatus, no reply to later input, no callback, connection closed, class-28 error for a wrong password; accepted => same transcript and callbacks as without authentication.",
+         "Not asserted: an ErrorResponse for validator failure / malformed input, a ReadyForQuery directly behind the rejection error, acceptance of a password message carrying surplus bytes.",
+         "DESIGN.md §3 C01"),
+ "C02": ("model_checking",
+         "explicit-state enumeration of frame-writer operation sequences x sink faults on the real buffer.Writer against a list-of-frames model; enumeration of odd-vocabulary sessions on a real server with every captured byte parsed by an independent strict backend grammar; write-fault enumeration",
+         "F1: every operation sequence of length <=6 (quick) / <=7 (thorough) over 13 writer operations x 6 sink behaviours vs. a list-of-frames model, invariant after every step. F2: every ErrorResponse shape to depth 3. F3: ~2.4k (quick) sessions combining result-writer programs, odd column names/tags, all 64 decorator subsets, all extended histories of length <=2, startup/global parameters with empty and non-ASCII values, auth, SSL refusal, COPY for 1-3 columns x 2 formats, oversized/unknown; the complete server output must parse under the strict grammar with no residue and each message be one write; for every 3rd session every failing-write position.",
+         "Trusts the independent strict grammar (pgproto/backend.go). Handler strings are NUL-free; buffer.Writer used within Start..End.",
+         "DESIGN.md §3 C02"),
+ "C03": ("model_checking",
+         "exhaustive enumeration of cut positions (deviation = one cut) over a corpus of byte streams on a real server, differential against un-cut delivery; surplus-message isolation probes; explicit-state enumeration of message bodies x accessor sequences on buffer.Reader against an independent cursor model",
+         "Streams = startup + every history of <=3 letters over 12 letters (surplus-carrying, oversized, COPY, truncated): read sizes 1/2/3, every single cut, every double cut (all pairs for streams <=64 bytes, else within 6 bytes of a message boundary; histories <=2 quick, <=3 thorough, plus triple cuts inside headers); transcript and callback trace must equal the un-cut run. 12 surplus variants x 10 prefixes followed by Sync+Query. All 1365 bodies of length <=5 over {00,01,'a',FF} x all accessor sequences of length <=4 (5 thorough) over 8 accessors (6.4M evaluations) vs. a cursor model incl. pointer-range containment.",
+         "Bound justification: every wire read is an io.ReadFull over one element behind one bufio.Reader, so cuts only interact within an element. Accessor results after the first error and negative sizes are outside the quantifier.",
+         "DESIGN.md §3 C03"),
+ "C04": ("fault_enumeration",
+         "exhaustive enumeration of truncation points, field mutations, raw byte strings and transport-fault positions over canonical sessions on a real server inside crash-isolated worker processes, each followed by a probe connection on the same server",
+         "Every byte prefix of ~190 canonical sessions; every length/count field of every message type (incl. binary-COPY tuple counts and field lengths) x 9-10 boundary values, body as is / cut or zero-extended to match; all raw strings of length <=4 (5 thorough) over 9 bytes on a fresh connection and <=3 after startup; every k-th read failing / short, every k-th write failing, failure after every 3rd (every, thorough) byte. Oracle: worker process survives (a death is attributed to the case with its panic trace), the connection closes (count-based livelock rule, stack-verified watchdog), a probe connection is then served normally, live heap stays below 4*max(L,4096)+8MiB, callbacks are a prefix of the fault-free callbacks, rows/parameters handed to handlers are what an independent decoder reads from the bytes sent.",
+         "Which error is sent for malformed input is not asserted. Handlers use the documented helpers (NewBinaryColumnReader loop, WithParameters(ParseParameters(q)), Parameter.Scan).",
+         "DESIGN.md §3 C04"),
+ "C07": ("model_checking",
+         "exhaustive enumeration of Parse/Bind/Describe/Execute/Close/Sync histories over colliding names on a real server: single connection vs. a set-valued name-resolution model, two connections differentially against each connection's projection served alone",
+         "All histories of length <=4 (quick) / <=5 (thorough) over 23 letters (names \"\"/a, portals \"\"/x, two distinguishable statements, two parameter/format variants) with per-message replies and callback arguments compared with the model; all two-connection interleavings of length <=4/<=5 over 2x6 letters using the same names: each connection must observe exactly what its own projection observes alone.",
+         "Not asserted: fate of a portal whose statement was closed, portals surviving Sync, the error-cycle discipline (C06). Finer-than-message interleavings are explored by C15.",
+         "DESIGN.md §3 C07"),
+ "C08": ("model_checking",
+         "small-scope exhaustive enumeration of Bind messages run through Parse/Describe/Bind/Describe/Execute/Sync on a real server, compared with the protocol's format rule and an independent value decoder",
+         "Parameter count 0-3 x values {NULL,\"\",a,\\x00,1} x parameter-format sections {none, one, per item} x 0-3 int4 result columns x result-format sections x declared OID lists (75k Binds quick): handler must see count/order/bytes/NULL-vs-empty/format per rule and Scan(text) must decode; Describe(P) announces rule(result codes) and DataRow fields decode in the announced format; Describe(S) announces the declared OIDs with text formats. Typed family: 19 (oid, format, encoding, value) items singly and in pairs through Parameter.Scan.",
+         "Inadmissible code counts are outside the quantifier.",
+         "DESIGN.md §3 C08"),
+ "C09": ("exploration",
+         "exhaustive enumeration over a stated value alphabet, each row written through a live session and decoded by an independent decoder in the announced format",
+         "10 types (14 thorough) x boundary values x Go source forms (native, pgtype valid, pointer) x NULL forms (untyped nil, typed nil pointer, invalid pgtype) x text (simple query) and binary (Bind result code 1); 2-3 column rows over a 5-type subset with every NULL placement x NULL form. One DataRow per row, field count = RowDescription, decoded value = written value (floats bit-exact), every NULL form = length -1, non-NULL empty = length 0.",
+         "Small-scope claim: exhaustive for the listed alphabet only. Trusts pgproto/values.go (independent text/binary decoder).",
+         "DESIGN.md §3 C09"),
+ "C10": ("model_checking",
+         "exhaustive enumeration of (limit x declared length x message type x position) on a real server with a zero-generating transport and live-heap monitor, plus the same boundaries directly on buffer.Reader; within-limit cases differential against a large limit",
+         "Limits 12..40, 4095, 4096, 4097, 65536, 0/-1 (16 MiB default) x body sizes {0,1,L-1,L,L+1,L+2,2L,2L+1,3L+7}, raw lengths 0..3, 2^16/2^31-5/2^31-4/2^32-5 (never materialised) x 13 client types + unknown x positions startup / password / first / between queries / after Parse / inside COPY, each followed by a probe. <=L: identical to a 1 MiB limit; >L in session: exactly one non-fatal 54000 error, all bytes skipped (probe answered normally), never buffered (heap monitor, cap(Msg)); handshake: closed, no session; <4: rejected without wrapped reads.",
+         "Not asserted: ReadyForQuery after the 54000 error; continue-or-close after a sub-minimum length.",
+         "DESIGN.md §3 C10"),
+ "C12": ("model_checking",
+         "exhaustive enumeration of startup packets x server configurations on a real server against a reference description of the negotiation (sequential part); schedules of concurrently connecting users are explored by the C15 scenarios",
+         "All startup key/value lists of <=3 (quick) / <=4 (thorough) pairs over 4 keys x 3 values incl. duplicates x 20 configurations (5 global maps x 2 versions x auth on/off); 8 malformed / CancelRequest packets x 20 configurations. Auth exchange, then a ParameterStatus block whose key set is exactly configured+standard keys each once, then exactly one ReadyForQuery(idle); handlers see exactly the sent client parameters, the announced server parameters and the connecting user; the configured map is unchanged; malformed => closed without callback; cancel => no byte, no callback.",
+         "Not asserted: order inside the block; which duplicate key wins; value on collision of a configured key with a standard one.",
+         "DESIGN.md §3 C12"),
+ "C13": ("model_checking",
+         "exhaustive enumeration of client message sequences after a CopyInResponse x handler reading policies x column count/format x simple/extended mode on a real server, compared per message with a reference simulation of the COPY sub-protocol",
+         "All sequences of length <=4 (quick) / <=5 (thorough) over 9 letters x 6 handler policies x {(1 col,text),(3 cols,binary)} x {simple, extended}, followed by Sync+Query (177k sessions quick): CopyInResponse format/columns, chunks seen by the handler byte-exact and in order, Flush/Sync invisible, CopyDone = EOF, CopyFail/foreign = non-EOF error, exactly one ErrorResponse and one ReadyForQuery per aborted cycle, COPY messages outside COPY ignored.",
+         "A handler that keeps reading after the abort error is only required to yield exactly one E and one Z.",
+         "DESIGN.md §3 C13"),
+ "C14": ("model_checking",
+         "exhaustive enumeration of binary COPY streams x all splits into CopyData messages up to a cut bound (deviation = one cut) x single corruptions, decoded by the real BinaryCopyReader in a live session and compared with an independent encoder",
+         "Tables of 1-3 columns (int4,text,bool; +int8,float8,bytea thorough) x 0-2 rows x every NULL placement x trailer present/absent; every split with <=2 (3 thorough) cuts, uniform chunk sizes, empty CopyData interleaved; corruptions: field count +1/-1/0/32768/65535, well-formed extra/missing field, field length beyond data / 0xFFFFFFFE, every truncation point. Rows must equal what was encoded for every split; every corruption must be a non-EOF error, never a crash or a fabricated row.",
+         "Header flags/extension are 0. A stream cut exactly at a row boundary must decode cleanly (trailer-less streams are accepted).",
+         "DESIGN.md §3 C14"),
+ "C18": ("model_checking",
+         "exhaustive enumeration of later-traffic histories over message sizes around the 4 KiB allocation granule and the message limit on a real server whose callbacks retain everything uncopied next to a private clone; invariant after every message",
+         "First phase retains startup parameters (validator and parser), database/user/password, a Query text, a Parse text, two Bind values; then every history of length <=3 (quick) / <=4 (thorough) over 15 letters (bodies 0,1,100,4090,4095,4096,4097,8191,8192; oversized 8193/20000; two COPY bursts incl. an oversized CopyData; two Bind batches). After every message every retained value must equal its clone; the portal is re-executed at the end.",
+         "CopyData payload views are not part of the statement and are not retained.",
+         "DESIGN.md §3 C18"),
+ "C19": ("model_checking",
+         "exhaustive enumeration of (middleware count, failing position, auth, terminate hook) x command histories x delivery mode on a real server, judged by a lifecycle reference machine with context probes inside every callback",
+         "60 configurations x all histories of length <=3 (quick) / <=4 (thorough) over {Query ok, Query error, Parse+Bind+Execute+Sync, Terminate, EOF} x {message by message, one segment}: middlewares run once, in order, after auth + ParameterStatus and before ReadyForQuery, each seeing its predecessors' values; failure => no ReadyForQuery, no command, closed; every parser / statement call sees all values, client/server parameters, remote address, type map and a live context that is cancelled when the command ends; Terminate => hook exactly once, closed, nothing pipelined behind it runs.",
+         "Context cancellation is observed at the next quiescence.",
+         "DESIGN.md §3 C19"),
  "C20": ("exploration",
          "exhaustive enumeration of token concatenations up to a length bound on the real ParseParameters and through Parse+Describe on a live server, against an independent scanner",
          "All concatenations of <=4 (quick) / <=5 (thorough) tokens from a 13-token alphabet ($0,$1,$2,$5,$01,$65535,$65536,$99999999,$2^63,$,?,x,space) are passed to the real ParseParameters (panic, allocation and length bounds, OIDs, count against an independent scanner) and, up to 2/3 tokens, through Parse+Describe(S) on a live server whose handler uses WithParameters(ParseParameters(q)). Exhaustive for that alphabet and bound only.",
